@@ -560,6 +560,30 @@ int main(void) {
                 printf("X stablein %d %d %d %zu %zu %d %d %d %zu %d %d %d %zu\n", mode, endop, nbw, n1, n2, ZSTD_isError(r1) ? (int)ZSTD_getErrorCode(r1) : 0,
                        ZSTD_isError(r2) ? (int)ZSTD_getErrorCode(r2) : 0, (int)ZSTD_error_stabilityCondition_notRespected, regen, same, (int)ZSTD_BLOCKSIZE_MAX, st2, nc2);
                 ZSTD_freeCCtx(x);
+            } else if (!strcmp(what, "mtset")) {
+                /* "X mtset nbWorkers sections tail newLevel smallChunk": level 1, jobSize 512 KiB; <sections> e_continue calls of exactly one
+                 * section (each repeated until consumed), an accepted mid-frame ZSTD_CCtx_setParameter(compressionLevel), ZSTD_e_end with
+                 * <tail> bytes; once with a huge output chunk per call, once with <smallChunk> bytes per call */
+                int nbw, nsec, newLevel, pass; size_t tail, small, sizes[2] = { 0, 0 }; unsigned long long hs[2] = { 0, 0 }; int okdec[2] = { 0, 0 }, setok[2] = { 0, 0 };
+                size_t const sec = 512 << 10;
+                if (fscanf(in, "%d %d %zu %d %zu", &nbw, &nsec, &tail, &newLevel, &small) != 5) return 2;
+                if ((size_t)nsec * sec + tail > blobSize) return 2;
+                need_arena((size_t)nsec * sec + tail + 4096);
+                for (pass = 0; pass < 2; pass++) {
+                    size_t const chunk = pass ? small : ((size_t)1 << 30); size_t op = 0, r = 0; int k; ZSTD_CCtx* x = ZSTD_createCCtx();
+                    ZSTD_CCtx_setParameter(x, ZSTD_c_nbWorkers, nbw); ZSTD_CCtx_setParameter(x, ZSTD_c_jobSize, (int)sec); ZSTD_CCtx_setParameter(x, ZSTD_c_compressionLevel, 1);
+                    for (k = 0; k < nsec && !ZSTD_isError(r); k++) { ZSTD_inBuffer ib; ib.src = blob + (size_t)k * sec; ib.size = sec; ib.pos = 0;
+                        while (ib.pos < ib.size) { ZSTD_outBuffer ob; ob.dst = dstArena + op; ob.size = (arenaCap - op < chunk) ? arenaCap - op : chunk; ob.pos = 0;
+                            r = ZSTD_compressStream2(x, &ob, &ib, ZSTD_e_continue); if (ZSTD_isError(r)) break; op += ob.pos; } }
+                    setok[pass] = !ZSTD_isError(ZSTD_CCtx_setParameter(x, ZSTD_c_compressionLevel, newLevel));
+                    if (!ZSTD_isError(r)) { ZSTD_inBuffer ib; ib.src = blob + (size_t)nsec * sec; ib.size = tail; ib.pos = 0;
+                        for (;;) { ZSTD_outBuffer ob; ob.dst = dstArena + op; ob.size = (arenaCap - op < chunk) ? arenaCap - op : chunk; ob.pos = 0;
+                            r = ZSTD_compressStream2(x, &ob, &ib, ZSTD_e_end); if (ZSTD_isError(r)) break; op += ob.pos; if (r == 0) break; } }
+                    if (!ZSTD_isError(r)) { size_t const n = (size_t)nsec * sec + tail; size_t const d = ZSTD_decompress(srcArena, n + 4096, dstArena, op);
+                        okdec[pass] = (!ZSTD_isError(d) && d == n && memcmp(srcArena, blob, n) == 0); sizes[pass] = op; hs[pass] = XXH64(dstArena, op, 0); }
+                    ZSTD_freeCCtx(x);
+                }
+                printf("X mtset %d %d %zu %d %zu %zu %llx %d %d %zu %llx %d %d\n", nbw, nsec, tail, newLevel, small, sizes[0], hs[0], okdec[0], setok[0], sizes[1], hs[1], okdec[1], setok[1]);
             } else if (!strcmp(what, "copyopen")) {
                 size_t n, r0, r1, r2, r3, d = 0; int st1, st2; ZSTD_CCtx *x, *s; ZSTD_inBuffer ib; ZSTD_outBuffer ob; int withEnd;
                 if (fscanf(in, "%zu %d", &n, &withEnd) != 2) return 2;
